@@ -1,6 +1,6 @@
 (** Non-vacuity for C11_frag: programs of the fragment, by computation. *)
 From Coq Require Import NArith List.
-From FF Require Import Aml.Grammar Aml.WfProgram Aml.ParserFragF0Final Aml.ParserFragF1Final Props.C11_frag.
+From FF Require Import Aml.Grammar Aml.WfProgram Aml.ParserFragF0Final Aml.ParserFragF1Final Aml.ParserFragF3Final Props.C11_frag.
 Import ListNotations.
 Local Open Scope N_scope.
 
@@ -88,4 +88,35 @@ Proof. vm_compute. split; reflexivity. Qed.
 Example C11_fragment_F2_excludes :
   in_fragment_F2 [[AMethod 1 (f0_nm 0x4d 0x54 0x48 0x30) 0 [AOp 0xa4 [AConst 0x01 0]]]] = false /\
   in_fragment_F2 [[AScope 1 (mkName true 0 false [seg4 0x5f 0x53 0x42 0x5f]) []]] = false.
+Proof. vm_compute. repeat split. Qed.
+
+(** ---- F3: Scope directives over the predefined scopes (\_SB_ opened twice, _TZ_ and _GPE without root prefix) ---- *)
+Definition f3_program : list (list ast) :=
+  [[AName (f0_nm 0x41 0x42 0x43 0x44) (AConst OP_BYTE 7);
+    AScope 1 (mkName true 0 false [seg4 0x5f 0x53 0x42 0x5f])
+      [ADevice 1 (f0_nm 0x44 0x45 0x56 0x30) [AName (f0_nm 0x4e 0x41 0x4d 0x30) (AConst OP_WORD 0x1234)];
+       AMethod 1 (f0_nm 0x4d 0x54 0x48 0x30) 2 []];
+    ADevice 1 (f0_nm 0x44 0x45 0x56 0x31) [];
+    AScope 2 (mkName false 0 false [seg4 0x5f 0x54 0x5a 0x5f]) [AName (f0_nm 0x54 0x4d 0x50 0x30) (AConst 0x01 0)];
+    AScope 1 (mkName true 0 false [seg4 0x5f 0x53 0x42 0x5f]) [AName (f0_nm 0x5a 0x5a 0x5a 0x5a) (AConst OP_DWORD 0xcafe)];
+    AScope 1 (mkName false 0 false [seg4 0x5f 0x47 0x50 0x45]) []]].
+
+Example C11_parse_encode_partial_F3_nonvacuous :
+  wf_program f3_program = true /\ in_fragment_F3 f3_program = true /\ in_fragment_F2 f3_program = false /\
+  in_fragment_F3 f2_program = true /\ in_fragment_F3 f1_program = true /\ in_fragment_F3 f0_program = true.
+Proof. vm_compute. repeat split. Qed.
+
+Example C11_parse_encode_partial_F3_instance : parse_encode_statement f3_program.
+Proof. apply C11_parse_encode_partial_F3; vm_compute; reflexivity. Qed.
+
+Example C11_parse_encode_partial_F3_run : parse_program f3_program = (0, ns f3_program) /\ length (ns f3_program) = 7%nat.
+Proof. vm_compute. split; reflexivity. Qed.
+
+(** outside F3: two tables, Scope(\), a Scope inside a Device, a Scope over a declared Device, a nested Scope *)
+Example C11_fragment_F3_excludes :
+  in_fragment_F3 [[]; []] = false /\
+  in_fragment_F3 [[AScope 1 (mkName true 0 false []) []]] = false /\
+  in_fragment_F3 [[ADevice 1 (f0_nm 0x44 0x45 0x56 0x30) [AScope 1 (mkName true 0 false [seg4 0x5f 0x53 0x42 0x5f]) []]]] = false /\
+  in_fragment_F3 [[ADevice 1 (f0_nm 0x44 0x45 0x56 0x30) []; AScope 1 (f0_nm 0x44 0x45 0x56 0x30) []]] = false /\
+  in_fragment_F3 [[AScope 1 (mkName true 0 false [seg4 0x5f 0x53 0x42 0x5f]) [AScope 1 (mkName true 0 false [seg4 0x5f 0x54 0x5a 0x5f]) []]]] = false.
 Proof. vm_compute. repeat split. Qed.
